@@ -1,12 +1,32 @@
 import GluonModel.Sexp
 import GluonModel.Core
 import GluonModel.CoreParse
-open GluonModel GluonModel.Core
+import GluonModel.Bytecode
+import GluonModel.BytecodeParse
+import GluonModel.Compile
+open GluonModel GluonModel.Core GluonModel.Bytecode
+
+def globalsFor (gs : List Sym) (env : Env) : Option (List Val) :=
+  gs.mapM (lookup env)
 
 def handle : List Sexp → String
   | [.atom "evalcore", g, e] =>
     match parseGlobals g, parseExpr e with
     | some g, some e => renderRes (evalCore 100000 g e)
+    | _, _ => "bad-request"
+  | [.atom "runbc", g, m] =>
+    match parseGlobals g, parseModule m with
+    | some g, some (gs, f) =>
+      match globalsFor gs g with
+      | some vals => renderRun (runModule 10000000 f vals)
+      | none => "bad-globals"
+    | _, _ => "bad-request"
+  | [.atom "compile", se, e] =>
+    match se.toNat?, parseExpr e with
+    | some se, some e =>
+      match Compile.compileModule se e with
+      | (gs, f, none) => renderModule gs f
+      | (_, _, some why) => "unsupported:" ++ why
     | _, _ => "bad-request"
   | _ => "unimplemented"
 
